@@ -1076,6 +1076,10 @@ class BootstrapElectionModel(BaseElectionModel):
 
             contest_indicator = pd.get_dummies(all_units["postal_code-district"])
             postal_code_indicator = pd.get_dummies(all_units["postal_code"])
+            # an unexpected unit of a state that is not part of this election adds no contest
+            postal_code_indicator = postal_code_indicator.loc[
+                :, postal_code_indicator.iloc[: (n_train + n_test)].sum(axis=0) > 0
+            ]
 
             # which contests get a random effect is decided by the expected units only, otherwise an unexpected unit
             # (whose district is parsed from its id) could change the model for every other unit of its state
@@ -1106,6 +1110,9 @@ class BootstrapElectionModel(BaseElectionModel):
             )
         else:
             contest_indicator = pd.get_dummies(all_units["postal_code"])
+            # an unexpected unit of a state that is not part of this election adds no contest: the contests (and with
+            # them the dimension of every contest-level draw) are those of the expected units
+            contest_indicator = contest_indicator.loc[:, contest_indicator.iloc[: (n_train + n_test)].sum(axis=0) > 0]
             self.aggregate_names = {c: i for i, c in enumerate(contest_indicator.columns.tolist())}
             aggregate_indicator = contest_indicator.values
 
